@@ -81,6 +81,8 @@ type FuncContract struct {
 	FreeVars      []VarDecl // (closures) captured variables visible in the contract, by name
 	Implements    []string  // keys of interface-method contracts this method must refine
 	Deterministic bool      // (extern functions) results are functions of the argument values only
+	MustUse       [][2]string // (result name, reason): results a caller must not discard
+	NoCalls       []*Clause   // Expr = callee name (suffix match): calls this function must not make
 	Dead          bool      // target does not exist (reported as unresolved)
 	Stable        bool      // (interface / extern methods) the single result is a function of the receiver identity only
 }
@@ -129,7 +131,7 @@ type ContractFile struct {
 var clauseKeywords = map[string]bool{
 	"property": true, "requires": true, "ensures": true, "modifies": true, "pure": true,
 	"safe": true, "loop": true, "assume": true, "trusted": true, "alloc_bound": true,
-	"holds": true, "spawned": true, "terminates": true, "alias": true, "callsite": true, "stable": true, "freevars": true, "deterministic": true, "implements": true,
+	"holds": true, "spawned": true, "terminates": true, "alias": true, "callsite": true, "stable": true, "freevars": true, "deterministic": true, "implements": true, "mustuse": true, "nocall": true,
 }
 
 var labelRe = regexp.MustCompile(`\s:([A-Za-z_][A-Za-z0-9_]*)\s*$`)
@@ -376,6 +378,17 @@ func ParseContractFile(path string) (*ContractFile, error) {
 			cur.Deterministic = true
 			cur.HasMod = true
 			cur.Pure = true
+		case "nocall":
+			// nocall <callee> :label  -- this function (its closures included) never calls the named function
+			e0, lab := splitLabel(rest)
+			cur.NoCalls = append(cur.NoCalls, &Clause{Kind: "nocall", Expr: strings.TrimSpace(e0), Label: lab, Property: curProp, Line: ln})
+		case "mustuse":
+			// mustuse <result name> "reason": a caller that discards this result breaks the callee's protocol
+			nm, reason := rest, ""
+			if q := strings.Index(rest, `"`); q >= 0 {
+				nm, reason = strings.TrimSpace(rest[:q]), strings.Trim(rest[q:], `"`)
+			}
+			cur.MustUse = append(cur.MustUse, [2]string{nm, reason})
 		case "stable":
 			cur.Stable = true
 			cur.HasMod = true
